@@ -24,14 +24,44 @@ type Term struct {
 	V    ssa.Value
 }
 
+type renamer struct {
+	ids map[ssa.Value]int
+	n   map[string]int
+}
+
+func newRenamer() *renamer { return &renamer{ids: map[ssa.Value]int{}, n: map[string]int{}} }
+
+func (r *renamer) id(kind string, v ssa.Value) int {
+	if id, ok := r.ids[v]; ok {
+		return id
+	}
+	if kind != "RangeIdx" {
+		kind = "buf"
+	}
+	r.n[kind]++
+	r.ids[v] = r.n[kind]
+	return r.n[kind]
+}
+
 func (t *Term) String() string {
 	var sb strings.Builder
-	ren := map[ssa.Value]int{}
-	t.print(&sb, ren)
+	t.print(&sb, newRenamer())
 	return sb.String()
 }
 
-func (t *Term) print(sb *strings.Builder, ren map[ssa.Value]int) {
+// keyIDs gives process-wide unique numbers to the values that String numbers
+// by first occurrence, so that Key is a sound symbol name across terms.
+var keyIDs = newRenamer()
+
+// Key prints the term with globally unique ids for fresh buffers and loop
+// counters: two Keys are equal only if the terms denote the same value.
+func (t *Term) Key() string {
+	var sb strings.Builder
+	t.print(&sb, keyIDs)
+	return sb.String()
+}
+
+func (t *Term) print(sb *strings.Builder, ren *renamer) {
 	if t == nil {
 		sb.WriteString("_")
 		return
@@ -47,14 +77,11 @@ func (t *Term) print(sb *strings.Builder, ren map[ssa.Value]int) {
 	switch t.Op {
 	case "Const", "Nil", "Recv", "Param", "Global", "Func", "Type":
 		sb.WriteString(t.S)
+	case "RangeIdx":
+		fmt.Fprintf(sb, "RangeIdx#%d", ren.id("RangeIdx", t.V))
 	case "Rand", "ReadN", "Zero", "Copy":
 		// fresh buffers are numbered by first occurrence in the printed term
-		id, ok := ren[t.V]
-		if !ok {
-			id = len(ren) + 1
-			ren[t.V] = id
-		}
-		fmt.Fprintf(sb, "%s#%d(", t.Op, id)
+		fmt.Fprintf(sb, "%s#%d(", t.Op, ren.id(t.Op, t.V))
 		args(",")
 		sb.WriteString(")")
 	case "Field":
@@ -146,6 +173,7 @@ type TB struct {
 	memo   map[ssa.Value]*Term
 	active map[ssa.Value]bool
 	loadID map[ssa.Value]int
+	nextEpoch int
 	// NoGlobalInit disables the resolution of package variables to their
 	// initialiser.
 	NoGlobalInit bool
@@ -431,7 +459,11 @@ func (tb *TB) load(x *ssa.UnOp) *Term {
 		if tb.fieldUnstable(a) {
 			id, ok := tb.loadID[x]
 			if !ok {
-				id = len(tb.loadID) + 1
+				id = tb.sharedEpoch(x, a)
+				if id == 0 {
+					tb.nextEpoch++
+					id = tb.nextEpoch
+				}
 				tb.loadID[x] = id
 			}
 			t.S += "@" + strconv.Itoa(id)
@@ -479,6 +511,61 @@ func (tb *TB) load(x *ssa.UnOp) *Term {
 		return mk("Elem", "", x, tb.Term(a.X), tb.Term(a.Index))
 	}
 	return mk("Deref", "", x, tb.Term(x.X))
+}
+
+// sharedEpoch finds an earlier load of the same field of the same base that
+// dominates x with no possible store to that field in between, and returns
+// its epoch (0 if none): the two loads then denote the same value.
+func (tb *TB) sharedEpoch(x *ssa.UnOp, a *ssa.FieldAddr) int {
+	key := fieldKey(a)
+	baseKey := tb.baseTerm(a.X).Key()
+	for y, id := range tb.loadID {
+		ly, ok := y.(*ssa.UnOp)
+		if !ok || ly == x || ly.Parent() != x.Parent() {
+			continue
+		}
+		fy, ok := ly.X.(*ssa.FieldAddr)
+		if !ok || fieldKey(fy) != key || tb.baseTerm(fy.X).Key() != baseKey {
+			continue
+		}
+		if !dominatesInstr(ly, x) {
+			continue
+		}
+		if !tb.fieldWrittenBetween(ly, x, key) {
+			return id
+		}
+	}
+	return 0
+}
+
+// fieldWrittenBetween: may a store to the field key happen on a path from
+// instruction from (exclusive) to instruction to?
+func (tb *TB) fieldWrittenBetween(from, to ssa.Instruction, key string) bool {
+	interferes := func(in ssa.Instruction) bool {
+		switch c := in.(type) {
+		case *ssa.Store:
+			if fa, ok := c.Addr.(*ssa.FieldAddr); ok && fieldKey(fa) == key {
+				return true
+			}
+		case ssa.CallInstruction:
+			for _, e := range tb.p.CG().Out[in.Parent()] {
+				if e.Site != in {
+					continue
+				}
+				if eff := tb.p.EffectsOf(e.Callee); eff != nil && eff.AllFields[key] {
+					return true
+				}
+			}
+		}
+		return false
+	}
+	vis := tb.p.Reach([]Loc{locAfter(from)}, func(in ssa.Instruction) bool { return in == to })
+	for in := range vis {
+		if interferes(in) {
+			return true
+		}
+	}
+	return false
 }
 
 // baseTerm is Term for the base of a field access: a struct allocated in this
